@@ -87,7 +87,7 @@ func (ch *ConnectionHandler) acceptStream() {
 			}
 			return
 		}
-		stream = streams.NewNamedConnection(stream, stream.RemoteAddr().String())
+		stream = streams.NewNamedConnection(streams.NewDrainedConnection(stream), stream.RemoteAddr().String())
 		log.Debugf("[Server] New logical connection accepted: %v", stream)
 
 		// Serve every logical connection on its own so that the loop returns to accepting
